@@ -412,20 +412,23 @@ def e2e_case(draw):
         "fallback": draw(st.sampled_from([0.0, 0.5, 1000.0, float("nan")])),
         "async": draw(st.booleans()),
         "mode": draw(st.sampled_from(["call", "execute"])),
+        # further 429s in the same run, each with its own hint; the client may re-raise one stored error object
+        "more": draw(st.one_of(st.just([]), st.lists(st.one_of(st.integers(0, 8), st.integers(0, 300)), max_size=2))),
+        "same_obj": draw(st.booleans()),
     }
 
 
 def check_e2e(case: dict) -> Verdict:
     v = Verdict()
     clock = VClock(None)
-    n = case["n"]
+    hints = [case["n"]] + list(case.get("more") or [])
     slept: list = []
+    fails: list = []
     calls = {"n": 0}
+    shared: dict = {}
     jit = case["jitter"]
 
-    def make_exc():
-        e = HttpErr("429")
-        e.status = 429
+    def set_hint(e, n):
         how = case["as"]
         if how == "header":
             e.headers = {"Retry-After": str(n)}
@@ -439,11 +442,22 @@ def check_e2e(case: dict) -> Verdict:
             e.retry_after = float(n)
         return e
 
+    def make_exc(n):
+        e = HttpErr("429")
+        e.status = 429
+        return set_hint(e, n)
+
     def op():
         calls["n"] += 1
         clock.t += g(case["dur"])
-        if calls["n"] == 1:
-            raise make_exc()
+        k = calls["n"] - 1
+        if k < len(hints):
+            fails.append(clock.rel())  # seconds: later failures need not fall on the tick grid
+            if case.get("same_obj") and k > 0:
+                e = set_hint(shared["e"], hints[k])  # a client re-raising its stored error with the fresh response
+            else:
+                e = shared["e"] = make_exc(hints[k])
+            raise e
         return "ok"
 
     async def aop():
@@ -462,7 +476,7 @@ def check_e2e(case: dict) -> Verdict:
         kw = dict(
             classifier=http_retry_after_classifier,
             strategy=retry_after_or(lambda ctx: case["fallback"], jitter_s=jit),
-            max_attempts=3,
+            max_attempts=len(hints) + 2,
             deadline_s=1.0e6 if case["deadline"] is None else g(case["deadline"]),
         )
         try:
@@ -477,23 +491,33 @@ def check_e2e(case: dict) -> Verdict:
     finally:
         bootstrap.set_clock(None)
         bootstrap.set_draw(None)
-    D = 64_000_000 if case["deadline"] is None else case["deadline"]
-    rem_ticks = D - case["dur"]
-    if rem_ticks <= 0:
-        if slept:
-            v.fail("C20:e2e:sleep-after-deadline", f"{case}: slept {slept} although the deadline had passed")
-        return v
-    if not slept:
-        v.fail("C20:e2e:no-wait", f"{case}: 429 with Retry-After {n} was not followed by a wait (calls={calls['n']})")
-        return v
-    s = slept[0][0]
-    rem = g(rem_ticks)
-    lo = min(rem, float(n))
-    hi = min(rem, float(n) + max(0.0, jit))
-    if not (lo <= s <= hi):
-        v.fail("C20:e2e:wait-bounds", f"{case}: waited {s!r}s, expected between min(remaining, hint)={lo!r} and min(remaining, hint+jitter)={hi!r}")
-    v.nontrivial = rem < n + max(0.0, jit) or case["as"] != "header" or case["r"] in (0.0, 1.0 - 2.0**-53)
-    v.tag("clamped-by-remaining" if rem < n else "unclamped", "as:" + case["as"])
+    D = 1.0e6 if case["deadline"] is None else g(case["deadline"])
+    clamped = False
+    for k, t_fail in enumerate(fails):
+        n = hints[k]
+        rem = D - t_fail
+        edge = 1e-6 if k else 0.0  # timedelta resolution again: within a microsecond of the deadline either reading is fine
+        if rem <= edge:
+            if len(slept) > k and rem <= -edge:
+                v.fail("C20:e2e:sleep-after-deadline", f"{case}: slept {slept} although the deadline had passed at failure {k + 1}")
+            break
+        if len(slept) <= k:
+            v.fail("C20:e2e:no-wait", f"{case}: 429 #{k + 1} with Retry-After {n} was not followed by a wait (calls={calls['n']}, slept {slept})")
+            break
+        s = slept[k][0]
+        # the library keeps elapsed/remaining time as timedelta: the deadline clamp has microsecond resolution
+        # (exact for failures on the 1/64 s grid, i.e. the first one; later ones follow an arbitrary wait)
+        tol = 1e-6 if k else 0.0
+        lo = min(rem - tol, float(n))
+        hi = min(rem + tol, float(n) + max(0.0, jit))
+        clamped = clamped or rem < n
+        if not (lo <= s <= hi):
+            v.fail("C20:e2e:wait-bounds" + (":later-failure" if k else ""), f"{case}: after 429 #{k + 1} waited {s!r}s, expected between min(remaining, hint)={lo!r} and min(remaining, hint+jitter)={hi!r}")
+            break
+    v.nontrivial = clamped or case["as"] != "header" or case["r"] in (0.0, 1.0 - 2.0**-53) or len(fails) > 1
+    v.tag("clamped-by-remaining" if clamped else "unclamped", "as:" + case["as"], f"failures={len(fails)}")
+    if case.get("same_obj") and len(fails) > 1:
+        v.tag("same-exception-object-new-hint")
     return v
 
 
